@@ -3,6 +3,7 @@ import RbV.Spec.KChain
 import RbV.Lemmas.QGram
 import RbV.Lemmas.KChain
 import RbV.Lemmas.QGramIter
+import RbV.Lemmas.QGramExact
 /-!
 # C19 — k-mer / q-gram indexing and sparse chaining are exact
 
@@ -109,6 +110,71 @@ theorem occurrence_count_exact (g t : List Nat) (i : Nat) : i ∈ occurrences g 
   mem_occurrences g t i
 
 example : qgramPositions 5 [1, 2] [1, 2, 0, 1, 2] = [0, 3] ∧ qgramPositions 1 [1, 2] [1, 2, 0, 1, 2] = [] := by decide
+
+/-! ## q-gram index: hits, `exact_matches`, `matches` -/
+
+/-- a pair (pattern position, text position) is a hit of the reference iff the two q-grams exist, are equal, and the
+q-gram is not masked (occurs at most `mc` times in the text) -/
+theorem hits_exact (mc q : Nat) (pat text : List Nat) (i p : Nat) (_hq : 0 < q) :
+    (i, p) ∈ hits mc q pat text ↔
+      i + q ≤ pat.length ∧ p + q ≤ text.length ∧ (pat.drop i).take q = (text.drop p).take q ∧
+      (occurrences ((pat.drop i).take q) text).length ≤ mc := by
+  rw [mem_hits_iff]
+  unfold isHit
+  simp only [Bool.and_eq_true, decide_eq_true_eq, List.contains_iff_mem, mem_qgramPositions, OccursAt]
+  constructor
+  · rintro ⟨hi, ⟨hp, hw⟩, hc⟩
+    rw [window_length hi] at hp hw
+    exact ⟨hi, hp, hw.symm, hc⟩
+  · rintro ⟨hi, hp, hw, hc⟩
+    refine ⟨hi, ⟨?_, ?_⟩, hc⟩
+    · rw [window_length hi]; exact hp
+    · rw [window_length hi]; exact hw.symm
+
+/-- symbol-wise agreement is equality of the two slices -/
+theorem agree_iff_slices (pat text : List Nat) (ps ts L : Nat) :
+    Agree pat text ps ts L ↔
+      ps + L ≤ pat.length ∧ ts + L ≤ text.length ∧ (pat.drop ps).take L = (text.drop ts).take L := by
+  unfold Agree
+  constructor
+  · rintro ⟨h1, h2, h3⟩; exact ⟨h1, h2, (window_eq_iff L ps ts h1 h2).mpr h3⟩
+  · rintro ⟨h1, h2, h3⟩; exact ⟨h1, h2, (window_eq_iff L ps ts h1 h2).mp h3⟩
+
+/-- **`exact_matches` = the maximal exact matches of length ≥ q.**  When no q-gram is masked (`mc` at least every
+occurrence count, e.g. `QGramIndex::new`), a range pair is reported by the reference iff pattern and text agree on
+it (`L ≥ q` symbols), the symbols just before differ or do not exist, and the symbols just after differ or do not
+exist. -/
+theorem exact_matches_are_maximal_exact_matches (mc q : Nat) (pat text : List Nat) (hq : 0 < q)
+    (hmc : ∀ g, (occurrences g text).length ≤ mc) (ps pe ts te : Nat) :
+    (ps, pe, ts, te) ∈ exactMatchesRef mc q pat text ↔
+      ∃ L, pe = ps + L ∧ te = ts + L ∧ q ≤ L ∧ Agree pat text ps ts L ∧
+        ¬ (0 < ps ∧ 0 < ts ∧ SymEq pat text (ps - 1) (ts - 1)) ∧ ¬ SymEq pat text (ps + L) (ts + L) :=
+  exactMatchesRef_iff_maximal mc q hq hmc ps pe ts te
+
+/-- any text of length `n` masks nothing when `mc ≥ n + 1` -/
+theorem nothing_masked (mc : Nat) (text : List Nat) (h : text.length + 1 ≤ mc) (g : List Nat) :
+    (occurrences g text).length ≤ mc := by
+  have hs := occurrences_sorted g text
+  have hb : ∀ i ∈ occurrences g text, i < text.length + 1 := by
+    intro i hi
+    have := (mem_occurrences g text i).mp hi
+    unfold OccursAt at this; omega
+  have key : ∀ (l : List Nat) (lo hi : Nat), l.Pairwise (· < ·) → (∀ i ∈ l, lo ≤ i ∧ i < hi) → l.length ≤ hi - lo := by
+    intro l
+    induction l with
+    | nil => intros; simp
+    | cons a l ih =>
+      intro lo hi hs hb
+      rw [List.pairwise_cons] at hs
+      have ha := hb a (by simp)
+      have := ih (a + 1) hi hs.2 (fun i hi' => ⟨hs.1 i hi', (hb i (by simp [hi'])).2⟩)
+      simp only [List.length_cons]
+      omega
+  have := key _ 0 (text.length + 1) hs (fun i hi => ⟨by omega, hb i hi⟩)
+  omega
+
+example : exactMatchesRef 9 2 [1, 2, 3, 9, 1, 2] [0, 1, 2, 3, 1, 2] = [(0, 3, 1, 4), (0, 2, 4, 6), (4, 6, 1, 3), (4, 6, 4, 6)] := by
+  decide
 
 /-! ## k-mer matches -/
 
